@@ -57,16 +57,17 @@ class GetFromPaths(GetByFinder):
             return {}
         data_path = get_data_json_path(sid_path)
         data: dict[str, Any] = {}
-        if data_path.exists():
-            try:
+        try:
+            # (exists() itself may fail, e.g. when the name of the sidecar would be too long for the file system)
+            if data_path.exists():
                 with data_path.open() as f:
                     data = json.load(f) or {}
-            except OSError as e:
-                warning(f"Failed to open the json file. Sid: {sid}, file: {data_path}, Error: {e}")
-            except json.JSONDecodeError as e:
-                warning(f"Failed to decode Json. Sid: {sid}, file: {data_path}, Error: {e}")
-            except Exception as e:
-                warning(f"Failed to get data from json. Sid: {sid}, file: {data_path}, Error: {e}")
+        except OSError as e:
+            warning(f"Failed to open the json file. Sid: {sid}, file: {data_path}, Error: {e}")
+        except json.JSONDecodeError as e:
+            warning(f"Failed to decode Json. Sid: {sid}, file: {data_path}, Error: {e}")
+        except Exception as e:
+            warning(f"Failed to get data from json. Sid: {sid}, file: {data_path}, Error: {e}")
 
         encoded = sid_encode(_sid)
         if encoded is not None:  # only None means "no sid entry" (0 or "" are values)
